@@ -107,4 +107,99 @@ theorem parse_render (v6ok : Str → Bool) (c : Components) (hw : c.WF v6ok) :
   simp only [expected]
   cases firstHb c.opts <;> cases firstTmo c.opts <;> rfl
 
+/-- corollary: a non-empty username, password and virtual host reach the parameters unchanged,
+    whatever characters they contain -/
+theorem credentials_exact (v6ok : Str → Bool) (c : Components) (hw : c.WF v6ok) (u p v : Str)
+    (hu : c.user = some u) (hp : c.pass = some p) (hv : c.vhost = some v)
+    (hu0 : u ≠ []) (hp0 : p ≠ []) (hv0 : v ≠ []) :
+    ∃ r, connectionParams v6ok (render c) = .ok r ∧ r.username = u ∧ r.password = p ∧ r.virtualHost = v := by
+  refine ⟨expected c, parse_render v6ok c hw, ?_, ?_, ?_⟩ <;>
+    simp [expected, orDefault, hu, hp, hv, hu0, hp0, hv0]
+
+/-- corollary: the scheme alone decides TLS and the default port -/
+theorem scheme_selects_tls (v6ok : Str → Bool) (c : Components) (hw : c.WF v6ok) (hp : c.port = none) :
+    ∃ r, connectionParams v6ok (render c) = .ok r ∧ r.ssl = c.tls ∧
+      r.port = if c.tls then 5671 else 5672 := by
+  refine ⟨expected c, parse_render v6ok c hw, rfl, ?_⟩
+  simp [expected, hp]
+
+/-- corollary: a URI that states nothing but its scheme yields exactly the documented defaults -/
+theorem all_defaults (v6ok : Str → Bool) (tls : Bool) :
+    connectionParams v6ok (render ⟨tls, none, none, none, none, none, []⟩) =
+      .ok ⟨localhost, guest, guest, if tls then 5671 else 5672, ['/'], .int 60, .int 10, tls⟩ := by
+  rw [parse_render v6ok _ ⟨fun _ h => (by cases h), fun _ h => (by cases h)⟩]
+  cases tls <;> rfl
+
+/-- error branch, as the code is: a port above 65535 makes `UriConnection` raise `ValueError`
+    (from `urlparse(...).port`), whatever the other components are -/
+theorem port_out_of_range (v6ok : Str → Bool) (c : Components) (hwh : ∀ h, c.host = some h → h.WF v6ok)
+    (n : Nat) (hp : c.port = some n) (hn : 65535 < n) :
+    connectionParams v6ok (render c) = .error .valueError := by
+  unfold connectionParams
+  rw [urlparse_render' v6ok c hwh, hp]
+  simp only [Option.map_some, portOf_toDec_big n hn]
+  rfl
+
+/-- as the code is: port 0 is falsy in `parsed_uri.port or default`, so `:0` selects the default
+    port (this is why `Components.WF` asks for ports in 1..65535) -/
+theorem port_zero_is_default (v6ok : Str → Bool) (c : Components) (hwh : ∀ h, c.host = some h → h.WF v6ok)
+    (hp : c.port = some 0) :
+    ∃ r, connectionParams v6ok (render c) = .ok r ∧ r.port = if c.tls then 5671 else 5672 := by
+  have hw : ({ c with port := none } : Components).WF v6ok := ⟨hwh, fun _ h => by cases h⟩
+  have hport : portOf (c.port.map toDec) = .ok (some 0) := by rw [hp]; exact portOf_toDec 0 (by omega)
+  have hmain := parse_render v6ok { c with port := none } hw
+  unfold connectionParams at hmain ⊢
+  rw [urlparse_render' v6ok c hwh, hport]
+  rw [urlparse_render' v6ok { c with port := none } hw.host] at hmain
+  simp only [Option.map_none, portOf] at hmain
+  simp only [bind, Except.bind, pure, Except.pure] at hmain ⊢
+  cases hb : optValue Gen.Uri.pHeartbeat (parseQsl (queryText c.opts)) with
+  | error e => simp [hb] at hmain
+  | ok hbv =>
+    cases ht : optValue Gen.Uri.pTimeout (parseQsl (queryText c.opts)) with
+    | error e => simp [hb, ht] at hmain
+    | ok tv =>
+      simp only [hb, ht, Except.ok.injEq] at hmain ⊢
+      refine ⟨_, rfl, ?_⟩
+      simp only [Gen.Uri.pPort, natOr]
+      cases c.tls <;> decide
+
+/-! ## Non-vacuity: concrete URIs evaluated by the kernel -/
+
+/-- reserved characters, '%' itself, non-ASCII and astral code points in the credentials and vhost -/
+def sample : Components :=
+  ⟨true, some "us:er@/é".toList, some "p%40 ss#?€😀".toList, some (.v6 "FE80::1".toList), some 5673,
+   some "/a b/%2F".toList, [.timeout 7, .heartbeat 0, .heartbeat 9]⟩
+
+set_option maxRecDepth 8192 in
+example : render sample =
+    "amqps://us%3Aer%40%2F%C3%A9:p%2540%20ss%23%3F%E2%82%AC%F0%9F%98%80@[FE80::1]:5673/%2Fa%20b%2F%252F?timeout=7&heartbeat=0&heartbeat=9".toList := by
+  decide
+
+example : sample.WF (fun _ => true) :=
+  ⟨fun h hh => (by cases hh; exact ⟨by decide, by decide, rfl⟩), fun n hn => (by cases hn; decide)⟩
+
+set_option maxRecDepth 8192 in
+example : connectionParams (fun _ => true) (render sample) =
+    .ok ⟨"fe80::1".toList, "us:er@/é".toList, "p%40 ss#?€😀".toList, 5673, "/a b/%2F".toList, .int 0, .int 7, true⟩ := by
+  decide
+
+example : connectionParams (fun _ => true) "amqp://".toList =
+    .ok ⟨localhost, guest, guest, 5672, ['/'], .int 60, .int 10, false⟩ := by decide
+example : connectionParams (fun _ => true) "amqps://:pw@:1/".toList =
+    .ok ⟨localhost, guest, "pw".toList, 1, ['/'], .int 60, .int 10, true⟩ := by decide
+example : connectionParams (fun _ => true) "amqp://My-Host.Example:5672/%2F?heartbeat=360".toList =
+    .ok ⟨"my-host.example".toList, guest, guest, 5672, ['/'], .int 360, .int 10, false⟩ := by decide
+/-- error branches of the code as it is -/
+example : connectionParams (fun _ => true) "amqp://h:x/".toList = .error .valueError := by decide
+example : connectionParams (fun _ => true) "amqp://h:70000/".toList = .error .valueError := by decide
+example : connectionParams (fun _ => true) "amqp://h/?heartbeat=abc".toList = .error .valueError := by decide
+example : connectionParams (fun _ => false) "amqp://[::g]/".toList = .error .valueError := by decide
+example : connectionParams (fun _ => true) "amqp://[::1/".toList = .error .valueError := by decide
+/-- `;params` are cut from the vhost because the scheme was patched to http (as the code is) -/
+example : (connectionParams (fun _ => true) "amqp://h/v;p".toList).toOption.map (·.virtualHost) = some ['v'] := by
+  decide
+/-- invalid UTF-8 escapes decode to U+FFFD like CPython's `errors='replace'` -/
+example : unquote "%E2%82%AC%FF%E2%82".toList = ['€', Char.ofNat 0xFFFD, Char.ofNat 0xFFFD] := by decide
+
 end Amqp.C18
